@@ -470,6 +470,27 @@ void qsbr_case(vh::rng& r) {
       if (!unodb::this_thread().is_qsbr_paused()) { qfail("resume/not-paused-after-failure", "a failed qsbr_resume left the thread resumed", json::object().set("k", k)); break; }
     }
     if (unodb::this_thread().is_qsbr_paused()) { injector::reset(); unodb::this_thread().qsbr_resume(); }
+    // "repeating the operation without the fault then succeeds with the normal result": the resumed thread must be fully
+    // functional, in particular able to hand pending requests over when it pauses again (state left behind by a failed
+    // attempt must not change what the successful one does)
+    {
+      std::atomic<int> phase{0};
+      unodb::qsbr_thread parked([&] { phase.store(1); while (phase.load() != 2) std::this_thread::yield(); });
+      while (phase.load() != 1) std::this_thread::yield();
+      const auto n = 1 + r.below(2);
+      for (u64 j = 0; j < n; ++j) {
+        auto* p = static_cast<qobj*>(unodb::detail::allocate_aligned(sizeof(qobj)));
+        unodb::this_thread().on_next_epoch_deallocate(p, sizeof(qobj), nullptr);
+      }
+      g_context = "qsbr_pause with requests pending after a resume that was retried";
+      unodb::this_thread().qsbr_pause();   // the requests become orphans
+      unodb::this_thread().qsbr_resume();
+      phase.store(2);
+      parked.join();
+      for (int i = 0; i < 3; ++i) unodb::this_thread().quiescent();
+      rep().count("pauses_with_pending_requests_after_retried_resume");
+      if (vm::alloc_tracker::get().blocks_live() != 0) qfail("resume/retry-not-normal", "after a failed and then repeated qsbr_resume, requests pending at the thread's next pause were not executed", json::object().set("blocks", static_cast<u64>(vm::alloc_tracker::get().blocks_live())));
+    }
   }
   // 2. qsbr_thread construction
   {
